@@ -482,25 +482,21 @@ func (f Index) Last(prefix []byte) (i Item, err error) {
 		_ = it.Close()
 	}()
 
-	// get the next prefix in line
-	// since database iterator Seek seeks to the
-	// next key if the key that it seeks to is not found
-	// and by getting the previous key, the last one for the
-	// actual prefix is found
-	nextPrefix := incByteSlice(prefix)
-	l := len(prefix)
-
-	if l > 0 && nextPrefix != nil {
+	// Seek to the first key after all keys that start with the index id and the
+	// prefix (it may belong to another index) and step back: the previous key is
+	// the last one with the prefix, if there is any. Only when no such bound exists
+	// (all bytes are 0xFF) the last key of the database is the candidate.
+	totalPrefix := append(append(make([]byte, 0, len(f.prefix)+len(prefix)), f.prefix...), prefix...)
+	if nextPrefix := bytesIncrement(totalPrefix); nextPrefix != nil {
 		it.Seek(driver.Key{
 			Prefix: indexKeyPrefixLength,
-			Data:   append(f.prefix, nextPrefix...),
+			Data:   nextPrefix,
 		})
 		it.Prev()
 	} else {
 		it.Last()
 	}
 
-	totalPrefix := append(f.prefix, prefix...)
 	return f.itemFromIterator(it, totalPrefix)
 }
 
